@@ -404,18 +404,70 @@ func ruleValueSources(c *core.Ctx) {
 				}
 				return true
 			})
-			negRet := false
+			// an error is returned exactly when the pattern does not match: every error return sits
+			// on the negative side of the match test, every nil return on its positive side
+			ui := u.Pkg.TypesInfo
+			isMatch := func(e ast.Expr) bool {
+				call, ok := ast.Unparen(e).(*ast.CallExpr)
+				if !ok {
+					return false
+				}
+				found := false
+				ast.Inspect(call.Fun, func(n ast.Node) bool {
+					if se, ok := n.(*ast.SelectorExpr); ok {
+						if o := ui.Uses[se.Sel]; o != nil && o.Pkg() != nil && strings.HasSuffix(o.Pkg().Path(), v.rel) && (o.Name() == v.re || o.Name() == v.fn) {
+							found = true
+						}
+					}
+					return true
+				})
+				return found
+			}
+			nErr, nNil, bad, unknown := 0, 0, 0, 0
 			ast.Inspect(u.Decl.Body, func(n ast.Node) bool {
-				if is, ok := n.(*ast.IfStmt); ok {
-					if un, ok := ast.Unparen(is.Cond).(*ast.UnaryExpr); ok && un.Op == token.NOT && astx.Terminates(u.Pkg.TypesInfo, is.Body.List) {
-						if r, ok := is.Body.List[len(is.Body.List)-1].(*ast.ReturnStmt); ok && isErrorReturn(u.Pkg.TypesInfo, u.Decl.Body, r) == 1 {
-							negRet = true
+				r, ok := n.(*ast.ReturnStmt)
+				if !ok {
+					return true
+				}
+				sign := 0
+				for _, ft := range astx.FactsAt(ui, u.Decl.Body, r.Pos()) {
+					if isMatch(ft.Cond) {
+						if ft.Positive {
+							sign = 1
+						} else {
+							sign = -1
 						}
 					}
 				}
+				switch isErrorReturn(ui, u.Decl.Body, r) {
+				case 1:
+					nErr++
+					if sign > 0 {
+						bad++
+					} else if sign == 0 {
+						unknown++
+					}
+				case -1:
+					nNil++
+					if sign < 0 {
+						bad++
+					} else if sign == 0 {
+						unknown++
+					}
+				default:
+					unknown++
+				}
 				return true
 			})
-			c.Check(uses && negRet, "DOM/value-sources", declKey(u)+":uses-pattern", pos(c, u.Decl), "error unless "+v.rel+"."+v.re+" matches", v.user+" does not reject strings the "+v.rel+" pattern rejects")
+			failMsg := v.user + " does not reject strings the " + v.rel + " pattern rejects"
+			switch {
+			case !uses || nErr == 0 || bad > 0:
+				c.Fail("DOM/value-sources", declKey(u)+":uses-pattern", pos(c, u.Decl), failMsg)
+			case unknown > 0:
+				c.Unrecognised("DOM/value-sources", declKey(u)+":uses-pattern", pos(c, u.Decl), "a return of "+v.user+" is not decided by the pattern test in a way the rule reads")
+			default:
+				c.Pass("DOM/value-sources", declKey(u)+":uses-pattern", pos(c, u.Decl), "error unless "+v.rel+"."+v.re+" matches")
+			}
 		}
 	}
 }
@@ -468,20 +520,45 @@ func rulePostingsValidate(c *core.Ctx) {
 		"!accounts.ValidateAddress(" + pv + ".Destination)": "invalid destination",
 		"!assets.IsValid(" + pv + ".Asset)":                 "invalid asset",
 	}
+	// every error return inside the loop rejects the postings satisfying the (single) positive
+	// condition it sits under — an `if`, an `if a || b`, or the case of a tagless switch
 	got := map[string]bool{}
-	for _, st := range loop.Body.List {
-		is, ok := st.(*ast.IfStmt)
-		if !ok || is.Init != nil || !astx.Terminates(info, is.Body.List) {
-			continue
+	ast.Inspect(loop.Body, func(n ast.Node) bool {
+		r, ok := n.(*ast.ReturnStmt)
+		if !ok || isErrorReturn(info, d.Decl.Body, r) != 1 {
+			return true
 		}
-		r, _ := is.Body.List[len(is.Body.List)-1].(*ast.ReturnStmt)
-		if r == nil || isErrorReturn(info, d.Decl.Body, r) != 1 {
-			continue
+		// the condition governing the return: an `if` or a tagless switch that is a statement of
+		// the loop body itself (a rejection nested under a further condition does not count)
+		var cond ast.Expr
+		for _, x := range loop.Body.List {
+			switch v := x.(type) {
+			case *ast.IfStmt:
+				if v.Body.Pos() <= r.Pos() && r.End() <= v.Body.End() && v.Init == nil {
+					cond = v.Cond
+				}
+			case *ast.SwitchStmt:
+				if v.Tag != nil || v.Init != nil {
+					continue
+				}
+				for _, cl := range v.Body.List {
+					cc := cl.(*ast.CaseClause)
+					if cc.Pos() <= r.Pos() && r.End() <= cc.End() && len(cc.List) >= 1 {
+						cond = cc.List[0]
+						for _, e := range cc.List[1:] {
+							cond = &ast.BinaryExpr{X: cond, Op: token.LOR, Y: e}
+						}
+					}
+				}
+			}
 		}
-		for _, dj := range splitOr(is.Cond) {
-			got[normCond(types.ExprString(dj))] = true
+		if cond != nil {
+			for _, dj := range splitOr(cond) {
+				got[normCond(types.ExprString(dj))] = true
+			}
 		}
-	}
+		return true
+	})
 	for cond, what := range want {
 		c.Check(got[normCond(cond)], "DOM/postings-validate", key+":"+strings.ReplaceAll(what, " ", "-"), pos(c, loop), what+" rejected", "Postings.Validate does not reject a posting with "+what)
 	}
@@ -548,44 +625,95 @@ func ruleCommitPaths(c *core.Ctx) {
 			arg = strings.TrimPrefix(types.ExprString(s.Call.Args[1]), "&")
 		}
 		key := enclKey(pkgCtrl, s.Encl) + ":" + arg
+		var encl *astx.DeclInfo
+		for _, dd := range index(c).Decls {
+			if dd.Decl == s.Encl {
+				encl = dd
+			}
+		}
+		if encl == nil || len(s.Call.Args) != 2 {
+			c.Unrecognised("DOM/commit-paths", key, pos(c, s.Call), "enclosing declaration of the CommitTransaction call not resolved")
+			continue
+		}
+		env := newOriginEnv(c, encl)
+		committed := env.origin(s.Call.Args[1])
 		switch fname {
 		case "createTransaction":
 			// the committed transaction is built from the runtime's result
-			ok := false
-			ast.Inspect(s.Encl.Body, func(x ast.Node) bool {
-				if call, isC := x.(*ast.CallExpr); isC {
-					if f := astx.Callee(info, call); f != nil && f.Name() == "WithPostings" && len(call.Args) == 1 && strings.HasSuffix(types.ExprString(call.Args[0]), "result.Postings") {
-						ok = true
-					}
-				}
-				return true
-			})
-			c.Check(ok, "DOM/commit-paths", key, pos(c, s.Call), "postings = runtime result", "createTransaction commits postings that are not the numscript runtime's output")
+			i := strings.Index(committed, ".WithPostings(")
+			switch {
+			case strings.HasPrefix(committed, "?"):
+				c.Unrecognised("DOM/commit-paths", key, pos(c, s.Call), "committed value not read: "+committed)
+			case i < 0:
+				c.Fail("DOM/commit-paths", key, pos(c, s.Call), "createTransaction commits postings that are not the numscript runtime's output (committed: "+committed+")")
+			default:
+				rest := committed[i+len(".WithPostings("):]
+				// first argument: <result of a call>.Postings
+				argEnd := strings.Index(rest, ".Postings")
+				ok := argEnd > 0 && strings.HasSuffix(rest[:argEnd], "#0")
+				c.Check(ok, "DOM/commit-paths", key, pos(c, s.Call), "postings = runtime result", "createTransaction commits postings that are not the numscript runtime's output (committed: "+committed+")")
+			}
 		case "revertTransaction":
-			ok := false
-			ast.Inspect(s.Encl.Body, func(x ast.Node) bool {
-				if as, isA := x.(*ast.AssignStmt); isA && len(as.Lhs) == 1 && len(as.Rhs) == 1 && types.ExprString(as.Lhs[0]) == arg {
-					if call, isC := as.Rhs[0].(*ast.CallExpr); isC {
-						if f := astx.Callee(info, call); f != nil && f.Name() == "Reverse" {
-							ok = true
-						}
-					}
-				}
-				return true
-			})
-			c.Check(ok, "DOM/commit-paths", key, pos(c, s.Call), "postings = Reverse() of the stored transaction", "revertTransaction commits a transaction that is not the reversal of the stored one")
+			switch {
+			case strings.HasPrefix(committed, "?"):
+				c.Unrecognised("DOM/commit-paths", key, pos(c, s.Call), "committed value not read: "+committed)
+			default:
+				c.Check(strings.HasSuffix(committed, ".Reverse()") && strings.Contains(committed, "RevertTransaction("), "DOM/commit-paths", key, pos(c, s.Call), "postings = Reverse() of the stored transaction", "revertTransaction commits a transaction that is not the reversal of the stored one (committed: "+committed+")")
+			}
 		case "importLog":
 			// Postings.Validate on the same payload field dominates, error leaves
 			ok := false
 			flow := astx.NewFlow(info, astx.InnermostFuncBody(s.Encl, s.Call))
 			for _, v := range callsTo(info, s.Encl.Body, methodOn("Postings", "Validate")) {
-				if types.ExprString(recvExpr(v)) == arg+".Postings" && flow.Dominates(v, s.Call) && errLeaves(info, s.Encl.Body, v) {
+				if env.origin(recvExpr(v)) == committed+".Postings" && flow.Dominates(v, s.Call) && errLeaves(info, s.Encl.Body, v) {
 					ok = true
 				}
 			}
+			// the validation may sit in a helper that is handed the postings
+			if !ok {
+				ast.Inspect(s.Encl.Body, func(x ast.Node) bool {
+					hc, isCall := x.(*ast.CallExpr)
+					if !isCall || ok {
+						return true
+					}
+					hf := astx.Callee(info, hc)
+					if hf == nil {
+						return true
+					}
+					hd := index(c).Decls[hf]
+					if hd == nil || hd.Decl.Body == nil || hd.Obj.Pkg() != encl.Obj.Pkg() || hd == encl {
+						return true
+					}
+					henv := env.forCallee(hc, hd)
+					for _, v := range callsTo(hd.Pkg.TypesInfo, hd.Decl.Body, methodOn("Postings", "Validate")) {
+						if henv.origin(recvExpr(v)) == committed+".Postings" && flow.Dominates(hc, s.Call) && (errLeaves(info, s.Encl.Body, hc) || assignedErrChecked(info, s.Encl.Body, hc)) {
+							ok = true
+						}
+					}
+					return true
+				})
+			}
 			c.Check(ok, "DOM/commit-paths", key, pos(c, s.Call), arg+".Postings.Validate() dominates the commit", "importLog commits "+arg+" from the import stream without validating its postings: every other creation path validates addresses, assets and amounts")
 		default:
-			c.Fail("DOM/commit-paths", key, pos(c, s.Call), "unclassified CommitTransaction call site in "+fname+": state where its postings come from and how they are validated")
+			// a helper of the three known paths is an unrecognised shape; a new entry point is a finding
+			helperOnly := true
+			callers := index(c).SitesOf(encl.Obj)
+			for _, cs := range callers {
+				if cs.Encl == nil {
+					helperOnly = false
+					continue
+				}
+				switch cs.Encl.Name.Name {
+				case "createTransaction", "revertTransaction", "importLog":
+				default:
+					helperOnly = false
+				}
+			}
+			if helperOnly && len(callers) > 0 {
+				c.Unrecognised("DOM/commit-paths", key, pos(c, s.Call), "CommitTransaction moved into helper "+fname+" of a known path")
+			} else {
+				c.Fail("DOM/commit-paths", key, pos(c, s.Call), "unclassified CommitTransaction call site in "+fname+": state where its postings come from and how they are validated")
+			}
 		}
 	}
 	c.Floor("DOM/commit-paths", "CommitTransaction call sites in the controller", n, 4)
@@ -617,6 +745,6 @@ func ruleCommitPaths(c *core.Ctx) {
 			}
 			return true
 		})
-		c.Check(bad == nil && swaps == 2, "DOM/commit-paths", declKey(r)+":swap-only", pos(c, r.Decl), "source ↔ destination only", "Postings.Reverse changes more than the direction of each posting: a reverted transaction may carry values no validation has seen")
+		c.Shape(bad != nil || swaps == 2, bad == nil && swaps == 2, "DOM/commit-paths", declKey(r)+":swap-only", pos(c, r.Decl), "source ↔ destination only", "Postings.Reverse changes more than the direction of each posting: a reverted transaction may carry values no validation has seen")
 	}
 }
